@@ -1,6 +1,6 @@
 (* C13 - model Hamiltonian generators. *)
 From Coq Require Import Arith List Bool.
-From OFV Require Import Model.Hubbard Thm.C13.Bonds.
+From OFV Require Import Model.Hubbard Thm.C13.Bonds Thm.C13.BondsF Thm.C13.BondsG.
 Import ListNotations.
 (* [B] every lattice x, y <= 12, both boundary conditions: the neighbour enumeration of hubbard.py
    (with its length-2 periodic de-duplication) is exactly the edge set of the grid / torus graph
@@ -8,3 +8,15 @@ Import ListNotations.
 Theorem C13_hubbard_bonds_exact_12 : forallb (fun x => forallb (fun y => bonds_ok x y) (seq 1 12)) (seq 1 12) = true.
 Proof. exact hubbard_bonds_exact_12. Qed.
 Print Assumptions C13_hubbard_bonds_exact_12.
+
+(* [F] EVERY lattice size and both boundary conditions: the neighbour enumeration of hubbard.py is
+   literally the coordinate edge list of the grid / torus ... *)
+Theorem C13_bonds_are_lattice_edges : forall x y per, 1 <= x -> 1 <= y -> bonds x y per = spec_edges x y per.
+Proof. exact bonds_are_lattice_edges. Qed.
+Print Assumptions C13_bonds_are_lattice_edges.
+(* ... and that list counts every bond once: no repetition, no edge in both orientations, no self loop
+   (periodic dimensions of length 2 and 1 included) *)
+Theorem C13_each_bond_once : forall x y per, 1 <= x -> 1 <= y ->
+  NoDup (bonds x y per) /\ (forall a b, In (a, b) (bonds x y per) -> ~ In (b, a) (bonds x y per)).
+Proof. exact each_bond_once. Qed.
+Print Assumptions C13_each_bond_once.
